@@ -80,8 +80,20 @@ func (l *LookupVertsIndex) Process(ctx context.Context, man gdbi.Manager, in gdb
 	go func() {
 		defer close(queryChan)
 		for t := range in {
+			// a stale index entry can list a vertex under its old label as well
+			// as under its current one: look every id up once per traveler
+			var seen map[string]bool
+			if len(l.labels) > 1 {
+				seen = map[string]bool{}
+			}
 			for _, label := range l.labels {
 				for id := range l.db.VertexLabelScan(ctx, label) {
+					if seen != nil {
+						if seen[id] {
+							continue
+						}
+						seen[id] = true
+					}
 					queryChan <- gdbi.ElementLookup{
 						ID:  id,
 						Ref: t,
@@ -95,6 +107,11 @@ func (l *LookupVertsIndex) Process(ctx context.Context, man gdbi.Manager, in gdb
 		defer close(out)
 		for v := range l.db.GetVertexChannel(ctx, queryChan, l.loadData) {
 			i := v.Ref
+			// the label index may still list a vertex under a label it no longer
+			// has (re-added with another label): trust the stored vertex
+			if !contains(l.labels, v.Vertex.Label) {
+				continue
+			}
 			out <- i.AddCurrent(&gdbi.DataElement{
 				ID:     v.Vertex.ID,
 				Label:  v.Vertex.Label,
